@@ -162,7 +162,8 @@ def sampler_helper(cb, t):
         return False
     name = cb.fn_name or ""
     sa = cb.parent.get("self_adt") or ""
-    anchors = {"pause", "resume", "flush", "progress", "finalize_many", "start", "update", "new", "abort", "wait_timeout", "inspect"}
+    # pause/resume are inlined too: the rules speak about "a Pause/Resume command is sent to the chain's mailbox", whichever function spells it
+    anchors = {"flush", "progress", "finalize_many", "start", "update", "new", "abort", "wait_timeout", "inspect"}
     if (sa.endswith("ChainProcess") or sa.endswith("Sampler") or sa.endswith("ChainProgress")) and name in anchors:
         return False
     return True
